@@ -751,6 +751,8 @@ def _parse_phase_numpydoc_and_google(
                 cur.update(
                     {"typ": typ.lstrip(), "doc": "\n".join(map(white_spacer, scan[1:]))}
                 )
+            elif len(scan) > 1:
+                cur["doc"] = "\n".join(map(white_spacer, scan[1:]))
             return cur
 
     else:
